@@ -664,6 +664,20 @@ class C12(CrossCfg):
         for i, (kind, traces) in enumerate((("valid", 40), ("malformed", 40), ("multi", 30), ("valid", 40))):
             out.append(dict(kind="wire", driver="wiredriver",
                             args=["-seed", seed * 1000 + 980 + i, "-traces", traces * mult, "-len", 100, "-stream", kind]))
+        # every conditional or refusable operation on keys / fields / members whose stored VALUE is the empty byte string
+        # (a test "is there a previous value?" answered from the value instead of from the lookup shows here), on the handle
+        # and inside a caller-managed transaction that commits
+        E = "x"
+        sc = ""
+        for mode in ("db", "tx"):
+            for op in (f"str.SetWith {K1} {hx('7')} 0 1 0 - 0", f"str.SetWith {K1} {hx('7')} 0 1 3600000 - 0", f"str.SetWith {K2} {hx('7')} 1 0 0 - 0",
+                       f"hash.SetNotExists {K3} {hx('f')} {hx('7')}", f"hash.SetNotExists {K3} {E} {hx('7')}", f"set.Add {hx('s')} 1 {E}",
+                       f"set.Move {hx('s')} {hx('s2')} {hx('nomember')}", f"set.Move {hx('nokey')} {hx('s')} {E}", f"zset.Add {hx('z')} {E} 0p0",
+                       f"list.InsertBefore {hx('l')} {hx('nopivot')} {E}", f"list.Set {hx('l')} 7 {E}", f"str.Incr {K1} 1", f"hash.Incr {K3} {hx('f')} 1",
+                       f"key.RenameNotExists {K1} {K3}", f"key.Persist {K1}", f"key.Expire {K2} 1000"):
+                sc += (f"--- {mode}\n!str.Set {K1} {E}\n!hash.Set {K3} {hx('f')} {E}\n!hash.Set {K3} {E} {E}\n!set.Add {hx('s')} 1 {E}\n"
+                       f"!zset.Add {hx('z')} {E} 0p0\n!list.PushBack {hx('l')} {E}\n{op}\nstr.Get {K1}\nkey.Get {K1}\n")
+        out.append(dict(kind="script", script=sc))
         return out
 
     def counts(self, op, v):
@@ -698,6 +712,18 @@ class C12(CrossCfg):
         return None
 
 
+def key_rows_differ(line):
+    """the rkey sections (`K … S`) of the pre- and post-dump of one protocol line differ"""
+    f = line.split(" | ")
+    if len(f) < 5:
+        return False
+    def ksec(d):
+        d = d.strip()
+        i = d.find(" S ")
+        return d[:i] if i >= 0 else d
+    return ksec(f[1]) != ksec(f[4])
+
+
 class C19(CrossCfg):
     lean = ["Props.C19", "Audit.C19"]
     audit = ["C19"]
@@ -715,6 +741,10 @@ class C19(CrossCfg):
             return ("violation", "the type or expiry reported by the key lookup is not what the operation established")
         if v.get("H") == "0":
             return ("violation", "the destination of a successful store does not start a new history (version 1, modification time of the call)")
+        # "untouched by reads and refused operations": the driver's N verdict says a read / refused / nothing-to-do step changed
+        # the tables; it is a violation of THIS property when the key rows (version, modification time, a key appearing) differ
+        if v.get("N") == "0" and key_rows_differ(v.get("_line", "")):
+            return ("violation", "a read or refused operation touched a key's version / modification time (or created a key row), K=" + ",".join(v["K"]))
         if v.get("M") == "0" and (set(v["D"]) & {"version", "mtime"}) and v.get("V") != "0":
             return ("corr", "model and implementation disagree on version/mtime (D=" + ",".join(v["D"]) + ")")
         return None
